@@ -176,14 +176,6 @@ func suiteCDecode(c *Ctx) {
 		}
 		emit(big, reqgen.Enc(args), "long-key-list")
 	}
-	if !c.Quick() {
-		// a single-key command with more arguments than there are slots
-		args := [][]byte{[]byte("sadd"), []byte("k")}
-		for i := 0; i < 16400; i++ {
-			args = append(args, []byte("m"+strconv.Itoa(i)))
-		}
-		emit(big, reqgen.Enc(args), "long-argument-list")
-	}
 	// every prefix of a few requests
 	for i := 0; i < 12; i++ {
 		r := rng.New(c.Seed, "cdecode-prefixes", i)
